@@ -302,6 +302,13 @@ func (r *rewriter) callKind(c *ast.CallExpr) string {
 			return "close"
 		}
 	case *ast.SelectorExpr:
+		if (f.Sel.Name == "MapRange" || f.Sel.Name == "MapKeys") && len(c.Args) == 0 {
+			if tv, ok := r.info.Types[f.X]; ok && tv.Type != nil {
+				if named, ok := tv.Type.(*types.Named); ok && named.Obj().Pkg() != nil && named.Obj().Pkg().Path() == "reflect" && named.Obj().Name() == "Value" {
+					return "reflect" + f.Sel.Name
+				}
+			}
+		}
 		if id, ok := f.X.(*ast.Ident); ok {
 			if pn, ok := r.info.Uses[id].(*types.PkgName); ok && pn.Imported().Path() == "time" {
 				switch f.Sel.Name {
@@ -419,6 +426,12 @@ func (r *rewriter) rewrite(n ast.Node) string {
 		case "cancel":
 			st.cancels++
 			return fmt.Sprintf("simrt.Cancel(%s)", r.render(x.Fun))
+		case "reflectMapRange":
+			st.mapRanges++
+			return fmt.Sprintf("simrt.ReflectMapRange(%s)", r.render(unparen(x.Fun).(*ast.SelectorExpr).X))
+		case "reflectMapKeys":
+			st.mapRanges++
+			return fmt.Sprintf("simrt.ReflectMapKeys(%s)", r.render(unparen(x.Fun).(*ast.SelectorExpr).X))
 		case "cancelcause":
 			st.cancels++
 			return fmt.Sprintf("simrt.CancelCause(%s, %s)", r.render(x.Fun), r.render(x.Args[0]))
